@@ -7,11 +7,11 @@ S  every relation node whose schema flags a column Unique / PrimaryKey is execut
 M  every scalar function the library lists as a bijection (Function::is_bijection, which lets a projection keep the
    constraint) and whose kernel is translatable is checked for injectivity on all 64-bit inputs.
 """
-import os, sys, json, re
+import os, sys, json, re, itertools
 sys.path.insert(0, os.path.join(os.path.dirname(os.path.abspath(__file__)), "..", "lib"))
 sys.path.insert(0, os.path.dirname(os.path.abspath(__file__)))
 import mir, smt, kern, driver, symrel, progs, sqlrun, exprsem
-import c07
+import c07, c01
 from common import Check, seed
 from smt import land, lor, lnot, bv64
 
@@ -56,6 +56,22 @@ def main():
     tables_json = progs.catalogue(K)
     programs = EXTRA + progs.programs(tier, seed())
     queries, meta, stats = c07.build_queries(ck, fns, tables_json, programs, K, want=("unique",))
+    # literal Values relations (their list is program text): every list over {1,2,3} of length <= 3, some longer ones
+    lists = [list(l) for n in (1, 2, 3) for l in itertools.product((1, 2, 3), repeat=n)] + [[1, 2, 3, 1], [2, 1, 2, 3], [1, 2, 3, 4], [3, 1, 2, 2]]
+    if tier == "quick":
+        lists = [l for i, l in enumerate(lists) if len(l) != 3 or i % 3 == 0 or l in ([1, 2, 1], [1, 1, 2], [2, 1, 1])]
+    vprogs = ["SELECT vals AS v FROM vals", "SELECT vals.vals AS v, t.a AS a FROM vals JOIN t ON vals.vals = t.k", "SELECT vals.vals AS v, u.x AS x FROM vals LEFT JOIN u ON vals.vals = u.id"]
+    for li, l in enumerate(lists):
+        q2, m2, s2 = c07.build_queries(ck, fns, tables_json + [dict(name="vals", values=l)], vprogs if li % 4 == 0 else vprogs[:2], K, want=("unique",))
+        for q in q2:
+            if q["id"].startswith("W|"):
+                continue
+            nid = "v%d:%s" % (li, q["id"])
+            m2[q["id"]]["values_list"] = l
+            meta[nid] = m2[q["id"]]
+            queries.append(dict(q, id=nid))
+        stats["programs"] += s2["programs"]
+        stats["refused"] += s2["refused"]
     n_flagged = sum(1 for q in queries if q["id"].startswith("unique|"))
 
     # ---- M: bijection flags
@@ -142,7 +158,7 @@ def main():
         try:
             con = sqlrun.connect()
             sqlrun.load(con, {p: tj for p, (tj, _) in info["ctx_tables"].items()}, dbm)
-            names, rows = sqlrun.run(con, sql)
+            names, rows = sqlrun.run(con, c01.sqlite_fix(sql))
         except Exception as ex:
             ck.inconclusive("SQLite replay failed for `%s` node %s: %s" % (info["sql"], info["node"], ex))
             continue
@@ -161,6 +177,8 @@ def main():
             if node["k"] == "Join":
                 on = json.dumps(node.get("on"))
                 role += "/on-with-or" if '"f": "Or"' in on else ""
+            if node["k"] == "Values":
+                role += "/repeated-literal"
             ck.violation("unique=%s" % role, "`%s` node %s flags column %s as %s but SQLite returns the value %r %d times on %s" % (
                 info["sql"], info["node"], info["col"], [f["constraint"] for f in node["schema"] if f["name"] == info["col"]][0], dups[0], vals.count(dups[0]), shown_db),
                 dict(sql=info["sql"], node=info["node"], column=info["col"], db=shown_db, rendered=sql))
